@@ -507,16 +507,24 @@ impl ActorLifecycleGuard {
         }
 
         self.actor.set_status(ActorStatus::Stopping);
+        #[cfg(feature = "verif")]
+        crate::verif::point("cleanup.terminate");
         self.actor.terminate();
 
+        #[cfg(feature = "verif")]
+        crate::verif::point("cleanup.notify");
         if let Some(event) = event {
             self.actor.notify_supervisor(event);
         }
 
+        #[cfg(feature = "verif")]
+        crate::verif::point("cleanup.unlink");
         if let Some(supervisor) = self.actor.try_get_supervisor() {
             self.actor.unlink(supervisor);
         }
 
+        #[cfg(feature = "verif")]
+        crate::verif::point("cleanup.stopped");
         self.actor.set_status(ActorStatus::Stopped);
         self.armed = false;
     }
